@@ -85,7 +85,13 @@ def check(ctx):
             continue
         for mbr in ("auto", 1):
             cases.append({"kind": "window", "cut": 25.0, "interp": interp, "down": down, "ctf": ctf, "lazy": lazy, "mbr": mbr})
-    ctx.run(cases, "run_case", rule="full: interpolation 1 vs Probe.multislice; window: interpolation > 1 vs periodised probe (all rolls searched); "
+    # routes: the same reduction reached through every build / reduce / compute order must be one result (with interpolation > 1 and a
+    # potential there is no conventional reference, but there is still only one right answer)
+    for interp, pot, ctf, sc in itertools.product(([1, 1], [2, 1], [2, 2]), ("atoms", "fp2"), (0, 2, 4), ("custom", "grid")):
+        if q and (ctf == 4 and sc == "grid"):
+            continue
+        cases.append({"kind": "routes", "cut": 25.0, "interp": interp, "pot": pot, "ctf": ctf, "scan": sc})
+    ctx.run(cases, "run_case", rule="routes: 5 build/reduce/compute orders of the same reduction agree | full: interpolation 1 vs Probe.multislice; window: interpolation > 1 vs periodised probe (all rolls searched); "
             "non-trivial = CTF with aberrations or a potential")
 
 
@@ -136,6 +142,43 @@ def run_case(c):
         if la != lb:
             bad("full/axes", "ensemble axes %r vs %r" % (la, lb))
         return {"viol": viol, "obs": "ok" if not viol else viol[0]["key"], "nt": bool(CTFS[c["ctf"]]) or c["pot"] != "none", "tr": 2, "err": worst}
+    if c["kind"] == "routes":
+        def smatrix():
+            return abtem.SMatrix(potential=potential(c["pot"]), semiangle_cutoff=c["cut"], energy=100e3, interpolation=tuple(c["interp"]), downsample=False)
+
+        def arr(x):
+            x = x.compute() if getattr(x, "is_lazy", False) else x
+            return np.asarray(x.array)
+
+        kw = lambda: dict(scan=make_scan(c["scan"]), ctf=make_ctf(c["ctf"], c["cut"]))  # noqa: E731
+        routes = {
+            "reduce(lazy=False)": lambda: arr(smatrix().reduce(lazy=False, **kw())),
+            "reduce(lazy=True).compute()": lambda: arr(smatrix().reduce(lazy=True, **kw())),
+            "build(lazy=False).reduce()": lambda: arr(smatrix().build(lazy=False).reduce(**kw())),
+            "build(lazy=True).compute().reduce()": lambda: arr(smatrix().build(lazy=True).compute().reduce(**kw())),
+            "build(lazy=True).reduce().compute()": lambda: arr(smatrix().build(lazy=True).reduce(**kw())),
+        }
+        res = {}
+        for name, f in routes.items():
+            try:
+                res[name] = f()
+            except Exception as e:  # noqa: BLE001
+                res[name] = "raises:%s: %s" % (type(e).__name__, str(e)[:100])
+        first_name = "reduce(lazy=False)"
+        first = res[first_name]
+        for name, r in res.items():
+            if isinstance(first, str) or isinstance(r, str):
+                if isinstance(first, str) != isinstance(r, str):
+                    bad("routes/outcome/" + name, "%s: %s, %s: %s" % (first_name, first if isinstance(first, str) else "ok", name, r if isinstance(r, str) else "ok"))
+                continue
+            if r.shape != first.shape:
+                bad("routes/shape/" + name, "%s gives shape %r, %s gives %r" % (name, r.shape, first_name, first.shape))
+                continue
+            e = err(r, first, RTOL, atol=1e-12)
+            worst = max(worst, e)
+            if not e <= 1.0:
+                bad("routes/values/" + name, "%s differs from %s by %.3g on max %.3g" % (name, first_name, float(np.abs(r - first).max()), float(np.abs(first).max())))
+        return {"viol": viol, "obs": "ok" if not viol else viol[0]["key"], "nt": True, "tr": len(routes), "ref": len(routes) - 1, "err": worst}
     # ---- window probes (vacuum)
     S = abtem.SMatrix(semiangle_cutoff=c["cut"], energy=100e3, gpts=GP, extent=EXT, interpolation=tuple(c["interp"]), downsample=c["down"])
     # centre, one-edge, and all four cell corners (the crop window wraps around in both directions there)
